@@ -352,7 +352,7 @@ class FitEngine(Engine):
         return 220 if tier == "quick" else 4000
 
     def timeout(self, tier):
-        return 300
+        return 900
 
     def setup(self):
         import scippneutron.peaks._fit_peaks as fp
